@@ -38,6 +38,7 @@ type PropSpec struct {
 	Lemmas      []string      `json:"lemmas"`
 	Static      []string      `json:"static"` // named static analyses (order-taint, json-tags, ...)
 	Bounded     []BoundedSpec `json:"bounded"`
+	Witness     []WitnessSpec `json:"witness"` // functions whose contract clauses are re-proved on executions of the real function
 	Assumptions []string      `json:"assumptions"`
 	Explanation string        `json:"explanation"`
 }
@@ -62,6 +63,7 @@ type Failure struct {
 	SolverOut  string `json:"solver_output,omitempty"`
 	SMTFile    string `json:"smt_file,omitempty"`
 	Replay     string `json:"replay_cmd,omitempty"`
+	Generated  string `json:"generated_test,omitempty"` // witness runs: the injected test (the replay command's overlay refers to a copy of it)
 }
 
 type BoundedResult struct {
@@ -316,7 +318,8 @@ func cmdCheck(args []string) int {
 	e := NewEngine(*repo, filepath.Join(work, "smt"))
 	os.MkdirAll(e.workdir, 0755)
 	var loadErr error
-	if len(ps.Functions) > 0 || len(ps.Lemmas) > 0 || len(ps.Static) > 0 {
+	var wreports []WitnessReport
+	if len(ps.Functions) > 0 || len(ps.Lemmas) > 0 || len(ps.Static) > 0 || len(ps.Witness) > 0 {
 		loadErr = e.Load("./...")
 		if loadErr == nil {
 			loadErr = e.LoadContracts(filepath.Join(*verif, "stdlib_contracts"))
@@ -333,7 +336,18 @@ func cmdCheck(args []string) int {
 			for _, sname := range ps.Static {
 				e.runStatic(sname)
 			}
+			var wfails []Failure
+			var wwg sync.WaitGroup
+			if len(ps.Witness) > 0 {
+				wwg.Add(1)
+				go func() {
+					defer wwg.Done()
+					wreports, wfails = e.runWitness(*repo, work, ps.Witness, seed, *tier, secs)
+				}()
+			}
 			e.Solve(secs, 10)
+			wwg.Wait()
+			failures = append(failures, wfails...)
 		}
 	}
 	wg.Wait()
@@ -408,6 +422,34 @@ func cmdCheck(args []string) int {
 				}
 			}
 			failures = append(failures, f)
+		}
+	}
+
+	// witness runs: one obligation per (function, clause), discharged when the clause was proved for
+	// every execution inside the precondition
+	wfailed := map[string]bool{}
+	for _, f := range failures {
+		if f.Backend == "witness" {
+			wfailed[f.Obligation] = true
+		}
+	}
+	for _, r := range wreports {
+		var labels []string
+		for l := range r.Clauses {
+			labels = append(labels, l)
+		}
+		sort.Strings(labels)
+		for _, l := range labels {
+			name := r.Func + "/witness/" + l
+			nObl++
+			status := "discharged"
+			if wfailed[name] || r.Clauses[l] != r.Accepted {
+				status = "failed"
+			} else {
+				nDis++
+			}
+			perObl = append(perObl, map[string]interface{}{"name": name, "kind": "witness", "status": status, "backend": "go test -overlay + z3/cvc5", "queries": r.Accepted,
+				"what": fmt.Sprintf("clause instantiated with the arguments and results of %d executions of the real function (of %d generated; the rest lie outside the precondition) follows from the spec functions", r.Accepted, r.Samples)})
 		}
 	}
 
@@ -527,6 +569,7 @@ func cmdCheck(args []string) int {
 			"bounded":      bounded,
 			"bounded_cmds": bcmds,
 			"known_findings_printed": knownPrinted,
+			"witness_runs":           wreports,
 			"solver_timeout_s": secs,
 		}
 		if len(bresults) > 0 && nObl == 0 {
